@@ -22,9 +22,10 @@ Inductive op :=
 | PutBinding (mac : bytes) (val : bytes)  (* raw 24-byte value under the key of mac *)
 | PutConfig (val : bytes)                 (* raw 8-byte config *)
 | PutRange (plen : N) (data : bytes)      (* raw LPM entry *)
-| Frame (f : bytes).
+| Frame (f : bytes)
+| SnapB.                                   (* raw dump of subscriber_bindings, sorted by key bytes *)
 
-Inductive out := OUnit | OErr | OVerdict (v : N) | OOob.
+Inductive out := OUnit | OErr | OVerdict (v : N) | OOob | OSnapB (l : kvmap).
 
 Definition zero16 : bytes := [0;0;0;0;0;0;0;0;0;0;0;0;0;0;0;0].
 Definition is_v4mapped (ip : bytes) : bool :=
@@ -107,11 +108,20 @@ Definition step (s : state) (o : op) : state * out * list N :=
   | Frame f =>
       let '(v, mk) := antispoof_prog (maps s) f in
       (s, match v with ARet x => OVerdict x | AOob => OOob end, mk)
+  | SnapB => (s, OSnapB (a_bind (maps s)), [])
+  end.
+
+Fixpoint kvb_eqb (a b : kvmap) : bool :=
+  match a, b with
+  | [], [] => true
+  | (k, v) :: a', (k', v') :: b' => bytes_eqb k k' && bytes_eqb v v' && kvb_eqb a' b'
+  | _, _ => false
   end.
 
 Definition out_eqb (a b : out) : bool :=
   match a, b with
   | OUnit, OUnit | OErr, OErr | OOob, OOob => true
   | OVerdict v, OVerdict v' => v =? v'
+  | OSnapB l, OSnapB l' => kvb_eqb l l'
   | _, _ => false
   end.
